@@ -17,6 +17,9 @@ MCPairs   == (SeqsUpTo({97, 98}, AB_H) \X SeqsUpTo({97, 98}, AB_N))
                \cup (StrsUpTo(XChars, 3) \X StrsUpTo(XChars, 2))
                \cup (StrsUpTo(EdgeChars, 2) \X StrsUpTo(EdgeChars, 1))
                \cup (StrsUpTo(UChars, 2) \X StrsUpTo(EdgeChars, 1))
+               \* bytes 31 / 32 / 33 apart: windows such as "BB" / "Aa" or "Ab" / "BA" collide under the usual
+               \* multiplicative rolling hashes (x * 31 + y, x * 33 + y)
+               \cup (SeqsUpTo({65, 66, 97, 98}, 4) \X SeqsUpTo({65, 66, 97, 98}, 2))
 
 Vec(o, hh, nn) == [m |-> "Matcher", op |-> o, h |-> hh, n |-> nn, exp |-> Ref(o, hh, nn)]
 \* one file per operation (TLC limits a set to 10^6 elements); keys are homogeneous tuples
